@@ -226,7 +226,23 @@ fn ends_with_access_without_type_arguments(expression: &expr::E<()>) -> bool {
         && ends_with_access_without_type_arguments(&e.argument)
     }
     expr::E::Binary(e) => {
-      e.e2.precedence() < expression.precedence()
+      // The right operand is at the end of the text when it is printed without parentheses:
+      // it binds tighter, or it is flattened into a chain of the same associative operator.
+      let flattened_into_chain = matches!(
+        e.e2.as_ref(),
+        expr::E::Binary(e2)
+          if e2.operator == e.operator
+            && is_chain_of_operator(&e2.e1, e.operator, expression.precedence())
+            && matches!(
+              e.operator,
+              expr::BinaryOperator::PLUS
+                | expr::BinaryOperator::MUL
+                | expr::BinaryOperator::AND
+                | expr::BinaryOperator::OR
+                | expr::BinaryOperator::CONCAT
+            )
+      );
+      (e.e2.precedence() < expression.precedence() || flattened_into_chain)
         && ends_with_access_without_type_arguments(&e.e2)
     }
     _ => false,
